@@ -8,9 +8,9 @@ TARGETS = ['pytezos.michelson.types.pair.PairType.iter_comb/unpairn_comb/access_
            'pytezos.michelson.instructions.control.MapInstruction.execute', 'pytezos.michelson.instructions.struct.*']
 STUBS = ['format_stdout -> no-op', 'str(int)/int(str), hex -> opaque wrappers', 'symbolic prim tags concretised by forking (forge module re-instantiated)']
 BOUNDS = {'quick': 'right combs of 3..4 leaves and one nested-left shape; every subset of pair nodes and leaves annotated (solver-chosen mask) with field or type annotations; '
-                   'leaf values symbolic (|ints| < 2^13, strings/bytes <= 1); instructions GET n, UPDATE n, UNPAIR n, UNPAIR, CAR, CDR, PAIR n, PACK, COMPARE, MAP/GET/UPDATE on maps with annotated keys, SOME/LEFT/CONS wrappers',
+                   'leaf values symbolic (|ints| < 2^13, strings/bytes <= 1); instructions GET n, UPDATE n, UNPAIR n, UNPAIR, CAR, CDR, PAIR n, PACK, COMPARE, MAP/GET/UPDATE on maps with annotated keys, SOME/LEFT/CONS wrappers, short sequences that build a container or option from an annotated component (MAP {CAR}, CAR;SLICE, CAR;SOME, ...), LAMBDA/APPLY/EXEC with an annotated parameter type',
           'thorough': 'combs of 3..5 leaves'}
-OUTSIDE = ['entrypoint names and Python-object field names (may depend on annotations by the property itself)', 'programs longer than one instruction on the annotated operand']
+OUTSIDE = ['entrypoint names and Python-object field names (may depend on annotations by the property itself)', 'programs beyond the listed one-instruction and short-sequence templates']
 ASSUMPTIONS = ['reference behaviour = the same instruction on the annotation-free type with the same values']
 
 SHAPES = {
@@ -169,6 +169,10 @@ def _show(r):
     return ['ok', [[repr(a), (p.hex() if isinstance(p, bytes) else p)] for a, p in r[1]]]
 
 
+def PUSHN(n):
+    return {'prim': 'PUSH', 'args': [{'prim': 'nat'}, {'int': str(n)}]}
+
+
 # ---- collections with annotated element / key types -------------------------------------------------
 COLL = [
     ('MAP over map with annotated pair key', 'map (pair int nat) int', {'prim': 'MAP', 'args': [[{'prim': 'CDR'}]]}, [0]),
@@ -178,6 +182,24 @@ COLL = [
     ('COMPARE annotated pairs', 'pair (pair int nat) string', {'prim': 'COMPARE'}, [], 'twice'),
     ('PACK option of annotated comb', 'option (pair int (pair nat (pair string nat)))', {'prim': 'PACK'}, []),
     ('CONS annotated pair', 'list (pair int nat)', {'prim': 'CONS'}, [0], 'elt'),
+    # results whose type is built at run time from the type of an annotated component
+    ('MAP CAR over list of annotated pairs', 'list (pair int nat)', {'prim': 'MAP', 'args': [[{'prim': 'CAR'}]]}, [0]),
+    ('MAP CDR over list of annotated pairs', 'list (pair int nat)', {'prim': 'MAP', 'args': [[{'prim': 'CDR'}]]}, [0]),
+    ('MAP CAR over map of annotated pairs', 'map nat (pair int string)', {'prim': 'MAP', 'args': [[{'prim': 'CDR'}, {'prim': 'CAR'}]]}, [0]),
+    ('SLICE of a pair component (out of range)', 'pair string nat', [{'prim': 'CAR'}, PUSHN(5), PUSHN(0), {'prim': 'SLICE'}], []),
+    ('SLICE of a pair component (in range)', 'pair bytes nat', [{'prim': 'CAR'}, PUSHN(0), PUSHN(0), {'prim': 'SLICE'}], []),
+    ('CAR then SOME', 'pair int nat', [{'prim': 'CAR'}, {'prim': 'SOME'}], []),
+    ('CDR then NIL CONS', 'pair int nat', [{'prim': 'CDR'}, {'prim': 'NIL', 'args': [{'prim': 'nat'}]}, {'prim': 'SWAP'}, {'prim': 'CONS'}], []),
+    ('CAR then LEFT', 'pair int nat', [{'prim': 'CAR'}, {'prim': 'LEFT', 'args': [{'prim': 'unit'}]}], []),
+    ('UNPAIR SWAP PAIR', 'pair int nat', [{'prim': 'UNPAIR'}, {'prim': 'SWAP'}, {'prim': 'PAIR'}], []),
+    ('CAR then EDIV', 'pair int nat', [{'prim': 'UNPAIR'}, {'prim': 'EDIV'}], []),
+    ('CAR then singleton set', 'pair int nat', [{'prim': 'CAR'}, {'prim': 'EMPTY_SET', 'args': [{'prim': 'int'}]}, {'prim': 'PUSH', 'args': [{'prim': 'bool'}, {'prim': 'True'}]}, {'prim': 'DIG', 'args': [{'int': '2'}]}, {'prim': 'UPDATE'}], []),
+    ('CDR as map value', 'pair int nat', [{'prim': 'UNPAIR'}, {'prim': 'DIP', 'args': [[{'prim': 'SOME'}]]}, {'prim': 'EMPTY_MAP', 'args': [{'prim': 'int'}, {'prim': 'nat'}]}, {'prim': 'DUG', 'args': [{'int': '2'}]}, {'prim': 'UPDATE'}], []),
+    ('IF_NONE on option of annotated pair', 'option (pair int nat)', [{'prim': 'IF_NONE', 'args': [[{'prim': 'NONE', 'args': [{'prim': 'int'}]}], [{'prim': 'CAR'}, {'prim': 'SOME'}]]}], []),
+    ('IF_LEFT on union with annotated pair', 'or (pair int nat) string', [{'prim': 'IF_LEFT', 'args': [[{'prim': 'CDR'}, {'prim': 'SOME'}], [{'prim': 'DROP'}, {'prim': 'NONE', 'args': [{'prim': 'nat'}]}]]}], []),
+    ('CONCAT of annotated components', 'pair string string', [{'prim': 'UNPAIR'}, {'prim': 'CONCAT'}], []),
+    ('APPLY on a lambda with an annotated parameter pair', 'pair nat int', 'LAMBDA-APPLY', [], 'lambda'),
+    ('EXEC of a lambda with an annotated parameter pair', 'pair nat int', 'LAMBDA-EXEC', [], 'lambda'),
 ]
 
 
@@ -225,6 +247,18 @@ def _is_collection_arg_path(path, order):
 def _coll_run(ty, src, ins, how, sym):
     from pytezos.michelson import types as t
 
+    if how == 'lambda':
+        texpr = ty.as_micheline_expr()
+        code = [{'prim': 'LAMBDA', 'args': [texpr, {'prim': 'nat'}, [{'prim': 'CAR'}]]}]
+        if ins == 'LAMBDA-APPLY':
+            code += [PUSHN(1), {'prim': 'APPLY'}, {'prim': 'PUSH', 'args': [{'prim': 'int'}, {'int': '5'}]}, {'prim': 'EXEC'}]
+        else:
+            code += [{'prim': 'PUSH', 'args': [mich.strip_annots(texpr), {'prim': 'Pair', 'args': [{'int': '3'}, {'int': '4'}]}]}, {'prim': 'EXEC'}]
+        try:
+            out = mich.run_seq([mich.I(i) for i in code], [])
+        except mich.Failed as e:
+            return ('fail', str(e)[:80])
+        return ('ok', _result(out), tuple(mich.type_expr(x) for x in out))
     v = mbv.sym_value(src, ty, 'v', 1, 1) if sym else mbv.conc_value(ty, src, 'v')
     stack = [v]
     if how == 'key':
@@ -241,7 +275,7 @@ def _coll_run(ty, src, ins, how, sym):
         e = mbv.sym_value(src, ety, 'e', 1, 1) if sym else mbv.conc_value(ety, src, 'e')
         stack = [e, v]
     try:
-        out = mich.run_instr(mich.I(ins), stack)
+        out = mich.run_seq([mich.I(i) for i in ins], stack) if isinstance(ins, list) else mich.run_instr(mich.I(ins), stack)
     except mich.Failed as e:
         return ('fail', str(e)[:80])
     return ('ok', _result(out), tuple(mich.type_expr(x) for x in out))
@@ -251,6 +285,10 @@ def sym_coll(P, ex):
     base = mich.texpr(P['type'])
     order_n = len({q for p in _inner_pairs(base) for q in (p, p + '0', p + '1')})
     mask = mbv._choose(ex, 'mask', 1, (1 << order_n) - 1)
+    if P.get('how') == 'lambda' and P['kind'] == 'field' and (mask & 1):
+        from vf import bvx
+
+        raise bvx.Abort()     # a field annotation on the parameter type of a lambda itself is not well-formed Michelson
     try:
         TA = mich.T(_annot_pairs(base, mask, P['kind']))
     except Exception:  # annotation placement not allowed by the type constructor (e.g. annotated collection argument)
@@ -276,6 +314,8 @@ def sym_coll(P, ex):
 def conc_coll(P, w):
     base = mich.texpr(P['type'])
     mask = int(w['mask'])
+    if P.get('how') == 'lambda' and P['kind'] == 'field' and (mask & 1):
+        return {'ok': True, 'note': 'field annotation on the lambda parameter type itself: not well-formed'}
     try:
         TA = mich.T(_annot_pairs(base, mask, P['kind']))
     except Exception:
